@@ -114,6 +114,12 @@ class PaVeBaGP(PALAlgorithm):
 
         self.cone_alpha = self.order.ordering_cone.alpha.flatten()
         self.cone_alpha_eps = self.cone_alpha * self.epsilon
+        cone_matrix = self.order.ordering_cone.W
+        is_square = cone_matrix.shape[0] == cone_matrix.shape[1]
+        if design_confidence_type == "hyperrectangle" and is_square:
+            # Hyperrectangles take the slack as a shift in the objective space: use the shift whose
+            # value along each cone facet equals the per-facet slack.
+            self.cone_alpha_eps = np.linalg.solve(cone_matrix, self.cone_alpha_eps)
 
         self.S = set(range(self.design_space.cardinality))
         self.P = set()
